@@ -3,7 +3,8 @@
    Vocabulary: Model/MesRule.v (mirror of mes_rule.py), Spec/MesSpec.v (textbook),
    Proofs/MesSweep.v ([paidl], [tu], [tbud], [wfs], [kle], [rich], [is_rho_l], [poorer]). *)
 From PB Require Import Model.MesRule Spec.MesSpec Proofs.MesSweep Proofs.MesLazy Proofs.MesWf
-  Proofs.MesBinary Proofs.MesTrace Proofs.MesRefine.
+  Proofs.MesBinary Proofs.MesTrace Proofs.MesRefine Proofs.MesRun Proofs.MesFeasible Proofs.MesFinal
+  Proofs.MesSpecRun Proofs.MesInterp Proofs.MesSpecExec.
 Open Scope Q_scope.
 
 (* M sweep_spec: on supporters sorted by budget/utility who can afford the project, the sweep of
@@ -115,23 +116,139 @@ Theorem C02_binary_sweep_refuted :
 Proof. exact binary_sweep_refuted. Qed.
 Print Assumptions C02_binary_sweep_refuted.
 
-(* UNPROVED (M, DESIGN.md §4 C02)
-   Theorem mes_model_refines_spec : forall x o,
-     wf_voters (mi_voters x) -> 0 <= mi_budget x -> NoDup (mi_enum x) ->
-     (forall p, In p (mi_enum x) <-> (p < length (mi_costs x))%nat) ->
-     mes_resolute x = Some o ->
-     exists W, spec_run (mi_costs x) (mi_voters x) (mi_tb x)
-                        (repeat (share x) (length (mi_voters x))) (pool of x) W
-               /\ set_eq (o_alloc o) (mi_init x ++ zeros of x ++ W).
-   What is proved towards it: every evaluation is the spec's least rho (C02_model_rho_is_spec_rho),
-   removed projects are unaffordable (C02_removed_unaffordable), the lazy scan equals the eager one
-   under cache_lb (C02_lazy_round_eq_eager), the run keeps all projects well formed
-   (Proofs/MesTrace.v run_res_inv).  Missing: preservation of cache_lb across rounds (from
-   C02_rho_monotone / C02_rho_ge_initial), the characterisation of the eager tied list as the argmin set,
-   and the assembly into a spec_run.
-   UNPROVED (S): mes_spec_perm_voters, mes_spec_scale; correctness of the executable rho_interp
-   (Spec/MesSpec.v) w.r.t. is_rho -- the oracle compares with rho_interp, which is validated against
-   the proved sweep only by the per-run evaluation (model = spec on every generated case). *)
+(* the invariant behind the lazy cut-off: the cached affordability of a pooled project is a lower
+   bound of EVERY rho covering its cost at the current budgets ([LB], Proofs/MesSpecRun.v).  It holds
+   of the initial value cost/total_sat, of every re-evaluated project, survives payments (budgets
+   only decrease), and implies [cache_lb] *)
+Theorem C02_cache_initial : forall P cs buds mp,
+  wf_voters P -> wf_buds P buds -> wf_mp P cs mp ->
+  0 < mp_tsat mp -> mp_aff mp * mp_tsat mp == mp_cost mp -> LB P cs buds mp.
+Proof. exact LB_init. Qed.
+Print Assumptions C02_cache_initial.
+
+Theorem C02_cache_after_scan : forall P cs buds projects best tied projects',
+  wf_voters P -> wf_buds P buds -> Forall (wf_mp P cs) projects -> Forall (LB P cs buds) projects ->
+  round_scan P buds projects = (best, tied, projects') -> Forall (LB P cs buds) projects'.
+Proof. exact round_scan_LB. Qed.
+Print Assumptions C02_cache_after_scan.
+
+Theorem C02_cache_monotone : forall P cs b b' mp,
+  0 < nth (mp_id mp) cs 0 -> (forall i, (i < length P)%nat -> vbud b' i <= vbud b i) ->
+  LB P cs b mp -> LB P cs b' mp.
+Proof. exact LB_mono. Qed.
+Print Assumptions C02_cache_monotone.
+
+Theorem C02_cache_lb : forall P cs buds l,
+  wf_voters P -> wf_buds P buds -> Forall (wf_mp P cs) l -> Forall (LB P cs buds) l -> cache_lb P buds l.
+Proof. exact LB_cache. Qed.
+Print Assumptions C02_cache_lb.
+
+(* the eager scan returns exactly the argmin: every returned project was evaluated and has the
+   returned rho; every project with that rho is returned *)
+Theorem C02_eager_sound : forall P buds (L : list mproj) l best tied,
+  incl l L ->
+  (forall x, In x tied -> exists mp a0, In mp L /\ cur_rho P buds mp = Some a0 /\ x = tmk P buds mp a0 /\ Qx_eq (Fin a0) best) ->
+  forall x, In x (snd (eager P buds l best tied)) ->
+    exists mp a0, In mp L /\ cur_rho P buds mp = Some a0 /\ x = tmk P buds mp a0 /\
+                  Qx_eq (Fin a0) (fst (eager P buds l best tied)).
+Proof. exact eager_sound. Qed.
+Print Assumptions C02_eager_sound.
+
+Theorem C02_eager_complete : forall P buds l best tied,
+  (forall x, In x tied -> Qx_eq best (fst (eager P buds l best tied)) -> In x (snd (eager P buds l best tied))) /\
+  (forall mp a0, In mp l -> cur_rho P buds mp = Some a0 -> Qx_eq (Fin a0) (fst (eager P buds l best tied)) ->
+     In (tmk P buds mp a0) (snd (eager P buds l best tied))).
+Proof. exact eager_complete. Qed.
+Print Assumptions C02_eager_complete.
+
+(* name-sort + stable tie-break sort of the tied MESProjects = tie_order of the name-sorted names *)
+Theorem C02_pick_order_is_tie_order : forall tb tied,
+  ids (pick_order tb tied) = tie_order tb (name_sort (ids tied)).
+Proof. exact pick_ids. Qed.
+Print Assumptions C02_pick_order_is_tie_order.
+
+(* one round of the model is one round of the textbook rule, and the link between the model's pool
+   and the spec's candidate list ([Ref]) is kept *)
+Theorem C02_round_refines : forall P cs tb buds projects rem rho tied projects' sel rest,
+  wf_voters P -> Ref P cs buds projects rem ->
+  round_scan P buds projects = (Fin rho, tied, projects') -> pick_order tb tied = sel :: rest ->
+  spec_round cs P tb buds rem (mp_id sel) rho /\
+  Ref P cs (pay P sel rho buds) (remove_proj (mp_id sel) projects')
+      (filter (fun q => negb (Nat.eqb q (mp_id sel))) rem).
+Proof. exact round_refines. Qed.
+Print Assumptions C02_round_refines.
+
+(* M mes_model_refines_spec: for every election (any utilities, multiplicities >= 1, costs, budget,
+   feasible-cost initial allocation), every tie-breaking key, enumeration order and binary_sat flag,
+   the purchases of the model are a run of the textbook rule from the same endowments on the
+   spec's pool, and the outcome is initial allocation + the spec's zero-cost projects + purchases *)
+Theorem C02_mes_model_refines_spec : forall x o,
+  wf_voters (mi_voters x) -> tcost (mi_inst x) (mi_init x) <= mi_budget x -> NoDup (mi_enum x) ->
+  (forall p, In p (mi_enum x) <-> (p < length (mi_costs x))%nat) ->
+  mes_resolute x = Some o ->
+  exists W, spec_run (mi_costs x) (mi_voters x) (mi_tb x)
+                     (repeat (share x) (length (mi_voters x))) (si_pool (spec_of x)) W /\
+            set_eq (o_alloc o) (mi_init x ++ si_zeros (spec_of x) ++ W).
+Proof. exact mes_model_refines_spec. Qed.
+Print Assumptions C02_mes_model_refines_spec.
+
+(* the same for every run of the inner algorithm from a common endowment b0 >= 0 (the runs of the
+   iterated variant), with the order of the outcome *)
+Theorem C02_run_once_refines_spec : forall x b0 o,
+  wf_voters (mi_voters x) -> 0 <= b0 -> NoDup (mi_enum x) ->
+  (forall p, In p (mi_enum x) <-> (p < length (mi_costs x))%nat) ->
+  run_once_res x b0 = Some o ->
+  exists Z W, spec_run (mi_costs x) (mi_voters x) (mi_tb x)
+                       (repeat b0 (length (mi_voters x))) (si_pool (spec_of x)) W /\
+              o_alloc o = mi_init x ++ Z ++ W /\ Permutation Z (si_zeros (spec_of x)).
+Proof. exact run_once_refines_spec. Qed.
+Print Assumptions C02_run_once_refines_spec.
+
+Theorem C02_share_is_spec_share : forall x, share x == si_share (spec_of x).
+Proof. exact share_is_si_share. Qed.
+Print Assumptions C02_share_is_spec_share.
+
+(* rho_interp_is_rho: the spec's EXECUTABLE least-rho computation (interpolation between adjacent
+   breakpoints -- what the oracle evaluates) returns the least rho of the declarative definition *)
+Theorem C02_rho_interp_is_rho : forall cs P b p,
+  wf_voters P -> wf_buds P b -> 0 < s_cost cs p -> affordable cs P b p ->
+  exists r, rho_interp cs P b p = Some r /\ is_rho cs P b p r.
+Proof. exact rho_interp_is_rho. Qed.
+Print Assumptions C02_rho_interp_is_rho.
+
+(* the EXECUTABLE textbook rule (what the oracle evaluates) against the declarative one: sound,
+   total with the fuel mes_spec uses, and the declarative rule is deterministic (budgets up to ==;
+   [beq], [SInv]: Proofs/MesSpecExec.v) *)
+Theorem C02_spec_exec_sound : forall cs P tb, wf_voters P -> forall fuel b rem W,
+  SInv cs P b rem -> spec_exec cs P tb fuel b rem = Some W -> spec_run cs P tb b rem W.
+Proof. exact spec_exec_sound. Qed.
+Print Assumptions C02_spec_exec_sound.
+
+Theorem C02_spec_exec_total : forall cs P tb fuel b rem,
+  (length rem < fuel)%nat -> spec_exec cs P tb fuel b rem <> None.
+Proof. exact spec_exec_total. Qed.
+Print Assumptions C02_spec_exec_total.
+
+Theorem C02_spec_run_deterministic : forall cs P tb b rem W, spec_run cs P tb b rem W ->
+  forall b2 W', beq b b2 -> spec_run cs P tb b2 rem W' -> W = W'.
+Proof. exact spec_run_det. Qed.
+Print Assumptions C02_spec_run_deterministic.
+
+(* ... hence: the model of the implementation and the executable textbook rule select the same set,
+   for every election, tie-breaking key, enumeration order, multiplicities, binary_sat flag and
+   (budget-respecting) initial allocation *)
+Theorem C02_mes_model_eq_spec : forall x o,
+  wf_voters (mi_voters x) -> tcost (mi_inst x) (mi_init x) <= mi_budget x -> NoDup (mi_enum x) ->
+  (forall p, In p (mi_enum x) <-> (p < length (mi_costs x))%nat) ->
+  mes_resolute x = Some o ->
+  exists W', mes_spec (spec_of x) = Some W' /\ set_eq (o_alloc o) W'.
+Proof. exact mes_model_eq_spec. Qed.
+Print Assumptions C02_mes_model_eq_spec.
+
+(* UNPROVED (S): mes_spec_perm_voters, mes_spec_scale.
+   NOT PROVED (beyond DESIGN.md's list): the analogous refinement for the irresolute model
+   (run_irr vs spec_exec_all) and for the iterated variants as a whole (every single run of the
+   loop is covered by C02_run_once_refines_spec); both are compared per run by Oracle/C02.v. *)
 
 (* non-vacuity: a concrete run (multiplicity 2, second round with a poor and a rich supporter, one
    project left unaffordable) on which the textbook spec agrees with the model; a sweep that skips
